@@ -42,6 +42,9 @@ CLAIMED = {
  "C18": ("history-shaped round-trip monitor: at every save point of generated histories the model is restored by state_dict/pickle/deepcopy and compared with the original",
          "Runtime monitoring at save points: for fourteen model families (exact default/batched/KISS-GP/SGPR/priors+custom constraints/RFF, six variational strategies/distributions incl. natural, LMC multitask, model list) after every step of generated train/eval/predict histories the live object is pickled and deep-copied first (caches as the history left them), then restored from its state_dict into a fresh model built with different prior parameters and constraint bounds; prior prediction, posterior/variational prediction, objective value and gradients, training flags, prior parameters and constraint bounds must equal the original's. Decides executed (family, history, mechanism) cells only.",
          "Equality at 1e-9 (pickle/deepcopy) and 1e-7 (state_dict into a fresh model, caches recomputed).", "DESIGN.md §4 C18"),
+ "C08": ("replica oracle: every element of a batched object's output vs a non-batched replica built by slicing the state_dict",
+         "Runtime monitoring of batched kernels (18 specs incl. composed, active_dims, multitask, derivative), means, Gaussian/fixed-noise likelihoods, exact GP posterior + MLL, SVGP q(f) + KL + ELBO (whitened/unwhitened, Cholesky/mean-field, shared or batched inducing points) over every broadcastable (parameter batch, data batch) pair from {(),(2),(3,2),(1,2),(3,1)}: for every element b of the broadcast batch a non-batched replica receives the b-th slice of every state_dict tensor and of the data and must reproduce output[b]; IndependentModelList outputs are bit-identical to the members' and SumMarginalLogLikelihood is their mean (unequal member sizes). Decides executed cells only.",
+         "Replicas are built through the same public constructors; parameters differ per batch element.", "DESIGN.md §4 C08"),
 }
 NOT_YET = "check not built yet in this round (see DESIGN.md §9 build order); not claimed until its monitor exists and is silent on the unchanged tree"
 
